@@ -210,11 +210,16 @@ def run(ctx, rep) -> None:
     rep.rule("C06.2", "update_params protocol: fill local send buffers -> all-gather -> apply all gathered masked blocks; parameters written after the gather only from the gather buffer")
     rep.rule("C06.3", "index spaces and re-masking of the DDP distributor's lists")
     rep.rule("C06.4", "the DDP / HSDP / HybridShard copies of the distribution code agree")
-    collective_uniformity(ctx, rep, "C06.1", {"DDPDistributor"})
-    buffer_protocol(ctx, rep, "C06.2", DDP)
-    typing_sites(ctx, rep, "C06.3", {"distributed_shampoo.utils.shampoo_ddp_distributor"}, {"distributed_shampoo.utils.shampoo_ddp_distributor": 8})
-    _dist_remask(ctx, rep, "C06.3", DDP)
-    sibling_pairs(ctx, rep, "C06.4", [p for p in dist_pairs() if DDP in p[:2]])
+    rep.attempt("collective_uniformity", collective_uniformity, ctx, rep, "C06.1", {"DDPDistributor"})
+    rep.attempt("buffer_protocol", buffer_protocol, ctx, rep, "C06.2", DDP)
+    from .c14 import assignment_determinism, buffer_views, ownership
+
+    rep.attempt("ownership", ownership, ctx, rep, "C06.3", [DDP])
+    rep.attempt("assignment_determinism", assignment_determinism, ctx, rep, "C06.3", [DDP])
+    rep.attempt("buffer_views", buffer_views, ctx, rep, "C06.3", [DDP])
+    rep.attempt("typing_sites", typing_sites, ctx, rep, "C06.3", {"distributed_shampoo.utils.shampoo_ddp_distributor"}, {"distributed_shampoo.utils.shampoo_ddp_distributor": 8})
+    rep.attempt("_dist_remask", _dist_remask, ctx, rep, "C06.3", DDP)
+    rep.attempt("sibling_pairs", sibling_pairs, ctx, rep, "C06.4", [p for p in dist_pairs() if DDP in p[:2]])
     rep.assume("numerical equality with the serial optimizer and the rounding bound for reduced-precision communication are NOT decided")
 
 
